@@ -239,6 +239,7 @@ type c11Seq struct {
 	shut    bool
 	closed  bool
 	shutW   bool
+	conn    bool // the receiving socket is connected to s1: s2's datagrams are no longer for it
 	counter int
 	names   []string
 	bufMax  int
@@ -247,7 +248,7 @@ type c11Seq struct {
 const c11Unit = 100
 
 func c11SeqAlphabet() []string {
-	return []string{"s1.send(12000)", "s1.send(20000)", "s2.send(12000)", "s2.send(30000)", "read", "shutdown(read)", "close", "s1.send(0)", "shutdown(write)", "shutdown(read+write)"}
+	return []string{"s1.send(12000)", "s1.send(20000)", "s2.send(12000)", "s2.send(30000)", "read", "shutdown(read)", "close", "s1.send(0)", "shutdown(write)", "shutdown(read+write)", "connect(to s1)"}
 }
 
 func c11NewSeq() engine.SeqSys {
@@ -273,6 +274,9 @@ func (s *c11Seq) Enabled() []int {
 	if !s.shutW {
 		en = append(en, 8)
 	}
+	if !s.conn {
+		en = append(en, 10)
+	}
 	return append(en, 6)
 }
 
@@ -291,7 +295,7 @@ func (s *c11Seq) Apply(i int) *engine.Violation {
 		if _, ferr := s.c.pump(); ferr != nil {
 			return bad("malformed-frame", "%v", ferr)
 		}
-		if s.closed || s.shut {
+		if s.closed || s.shut || (s.conn && port != 6001) {
 			return nil // must never be returned: checked by reads below (queue unchanged)
 		}
 		// fits => must be accepted; does not fit => may be dropped (whole)
@@ -367,9 +371,17 @@ func (s *c11Seq) Apply(i int) *engine.Violation {
 			return bad("shutdown-failed", "%v", err)
 		}
 		s.shut, s.shutW = true, true
+	case 10:
+		// connecting the bound socket narrows what it accepts from now on; what is queued stays,
+		// and a read side that was shut down stays shut
+		if err := s.rcv.Connect(tcpip.FullAddress{Addr: addrA4, Port: 6001}); err != nil {
+			return bad("connect-failed", "%v", err)
+		}
+		s.conn = true
 	case 6:
 		s.rcv.Close()
 		s.closed = true
+		s.conn = false
 		s.queue, s.maybe, s.bytesQ = nil, nil, 0
 		s.rcv = s.c.b.NewSock(udp.ProtocolNumber, ipv4.ProtocolNumber).EP // fresh unbound socket: reads must find nothing
 	}
